@@ -82,6 +82,23 @@ fn loosely_matches_at(rng: &mut ChaCha8Rng, s: u128, v: &[f64]) -> Option<&'stat
     if v.len() >= 24 && v.iter().zip(&z).all(|(a, b)| a / b > 0.0) {
         return Some("rescaled");
     }
+    // the stream's words through another standard distribution (uniform, exponential): bit for bit
+    rng.set_word_pos(s);
+    if v.iter().all(|x| nuts_rs::rand::RngExt::random::<f64>(rng).to_bits() == x.to_bits()) {
+        return Some("otherdist");
+    }
+    rng.set_word_pos(s);
+    if v.iter().all(|x| { let u: f64 = rand_distr::Open01.sample(rng); u.to_bits() == x.to_bits() }) {
+        return Some("otherdist");
+    }
+    rng.set_word_pos(s);
+    if v.iter().all(|x| { let u: f64 = rand_distr::OpenClosed01.sample(rng); u.to_bits() == x.to_bits() }) {
+        return Some("otherdist");
+    }
+    rng.set_word_pos(s);
+    if v.iter().all(|x| { let u: f64 = rand_distr::Exp1.sample(rng); u.to_bits() == x.to_bits() }) {
+        return Some("otherdist");
+    }
     None
 }
 
